@@ -37,7 +37,41 @@ def run(ck, ctx):
             jobs.append(dict(module="table", label=f"verbatim-names[{st}]", build_kw=dict(tier=ck.tier, constraints=True, set_null=False, style=st)))
             jobs.append(dict(module="table", label=f"normalize-names[{st}]", self_attrs={"normalize_names": True, "silent": True},
                              build_kw=dict(tier=ck.tier, constraints=True, set_null=False, style=st, normalize_names=True)))
-    run_fragments(ck, ctx, jobs)
+    exs = run_fragments(ck, ctx, jobs)
+    # ---- O-lex-prefix: a name that merely BEGINS like a keyword (arrays, Index_Data, primary_id_seq ...) is an identifier wherever a
+    # plain name is one: in every lexer configuration the fragments reach with a plain name (table / column / constraint positions,
+    # REFERENCES targets, ALTER / INDEX targets, sequence and entity names)
+    exs += run_fragments(ck, ctx, [dict(module="alter", only_rules={"O-accept"}, build_kw=dict(tier=ck.tier, judge=False)),
+                                   dict(module="sequence", only_rules={"O-accept"}, build_kw=dict(tier=ck.tier)),
+                                   dict(module="entities", only_rules={"O-accept"}, build_kw=dict(tier=ck.tier))])
+    visited = set()
+    for ex in exs:
+        visited |= ex.visited_lex
+    name_flags = []
+    seen_f = set()
+    for f, wc in sorted(visited, key=lambda x: (repr(x[0]), x[1].name)):
+        if wc.kind == "PLAIN" and f not in seen_f:
+            r0 = lm.step(f, wc)
+            if r0.type == "ID" and not r0.raised:
+                seen_f.add(f)
+                name_flags.append(f)
+    n_probe = 0
+    for k in sorted(kwnames.keyword_words(lm)):
+        for word in (k.lower() + "_col", k.capitalize() + "_Data", k.lower() + "x9", k + "_ID_SEQ"):
+            if word.upper() in lm.all_keys:
+                continue
+            pw = lm.custom(word, [word], "PROBE")
+            for f in name_flags:
+                n_probe += 1
+                r = lm.step(f, pw)
+                val = r.value if not hasattr(r.value, "ex") else r.value.ex[0]
+                if r.type != "ID" or r.raised or val != word:
+                    ck.ob("O-lex-prefix", f"`{word}` is typed {r.type} where a plain name is an identifier", False,
+                          f"`{word}` merely begins like the keyword {k}; under the lexer flags { {a: b for a, b in f if b not in (False, 0)} } a plain "
+                          f"name is an ID but this one becomes {r.type} (value {val!r}): the statement is lost or the name altered", "lexer t_ID and its helpers")
+                    break
+    ck.ob("O-lex-prefix", f"all {n_probe} (keyword-prefixed name, lexer configuration) pairs", True, "typed ID, value verbatim", "lexer")
+    ck.count("keyword_prefixed_probes", n_probe)
     # ---- O-lex-whole: identifiers with a keyword prefix are taken whole by the identifier rule
     n = 0
     import re as _re
